@@ -90,6 +90,9 @@ func TestWorker(t *testing.T) {
 		t.Fatal(err)
 	}
 	out.StuckFlag = &simsched.Stuck
+	// this check leaves the scheduling points at atomic operations off (set here, not in
+	// a package init: the C13 worker imports this package and wants them on)
+	simsched.AtomicYields = false
 	kinds := job.KindList(Algos)
 	mk := func(i int) (*Case, *choice.Source, *choice.Source) {
 		c := &Case{Property: "C12", Engine: "simsched", Algo: kinds[i%len(kinds)]}
